@@ -40,6 +40,7 @@ type cmd struct {
 	seq  int
 	text string
 	obl  bool // assumed because an obligation with this goal was generated just before
+	blk  int  // basic block in which the fact was established (-1: function entry / global)
 }
 
 type Enc struct {
@@ -57,6 +58,8 @@ type Enc struct {
 	usedSpec map[string]bool
 	reveal   map[string]bool // opaque spec functions whose definition is visible in this encoding
 	noLemmas bool
+	curBlk   int    // block being encoded (-1 outside any block)
+	lemmaLimit string // when set: only lemmas declared before this one may be used
 	axioms   []string
 	axDone   map[string]bool
 	usesLemma []string
@@ -67,7 +70,7 @@ func newEnc(w *World, pkg *types.Package) *Enc {
 	return &Enc{
 		w: w, declSeen: map[string]bool{}, lits: map[string]string{},
 		typeTags: map[string]int{}, structs: map[string]*Sort{}, uses: map[string]bool{}, pkg: pkg,
-		usedSpec: map[string]bool{}, axDone: map[string]bool{}, reveal: map[string]bool{},
+		usedSpec: map[string]bool{}, axDone: map[string]bool{}, reveal: map[string]bool{}, curBlk: -1,
 	}
 }
 
@@ -88,7 +91,16 @@ func (e *Enc) assume(t *T) {
 		return
 	}
 	e.seq++
-	e.cmds = append(e.cmds, cmd{e.seq, "(assert " + t.S + ")", false})
+	e.cmds = append(e.cmds, cmd{e.seq, "(assert " + t.S + ")", false, e.curBlk})
+}
+
+// assumeAt records a fact that belongs to block blk (used for lazily created merges).
+func (e *Enc) assumeAt(t *T, blk int) {
+	if t.S == "true" {
+		return
+	}
+	e.seq++
+	e.cmds = append(e.cmds, cmd{e.seq, "(assert " + t.S + ")", false, blk})
 }
 
 // define introduces a named constant equal to the term (keeps queries small).
@@ -103,7 +115,7 @@ func (e *Enc) define(hint string, t *T) *T {
 	r.GoT = t.GoT
 	r.Op, r.Args = t.Op, t.Args
 	e.seq++
-	e.cmds = append(e.cmds, cmd{e.seq, sapp("assert", sapp("=", name, t.S)), false})
+	e.cmds = append(e.cmds, cmd{e.seq, sapp("assert", sapp("=", name, t.S)), false, e.curBlk})
 	return r
 }
 
@@ -423,12 +435,13 @@ type State struct {
 	gen     int
 	parents []*State
 	conds   []*T
+	blk     int // block at whose entry this merge happens
 }
 
 func (e *Enc) newState() *State { return &State{e: e, m: map[string]*T{}} }
 
 func (s *State) clone() *State {
-	n := &State{e: s.e, m: make(map[string]*T, len(s.m)), gen: s.gen, parents: s.parents, conds: s.conds}
+	n := &State{e: s.e, m: make(map[string]*T, len(s.m)), gen: s.gen, parents: s.parents, conds: s.conds, blk: s.blk}
 	for k, v := range s.m {
 		n.m[k] = v
 	}
@@ -487,7 +500,7 @@ func (s *State) get(name string, so *Sort) *T {
 	s.e.declConst(sym, so)
 	nt := mk(sym, so)
 	for i := range s.parents {
-		s.e.assume(tImp(s.conds[i], tEq(nt, terms[i])))
+		s.e.assumeAt(tImp(s.conds[i], tEq(nt, terms[i])), s.blk)
 	}
 	s.m[name] = nt
 	return nt
@@ -519,6 +532,12 @@ func (e *Enc) query(upToSeq int, extra []string, getValues []string) string {
 // queryX with skipObl leaves out the goals assumed after their own obligation
 // (used by vacuity checks, which must not inherit a failed obligation's goal).
 func (e *Enc) queryX(upToSeq int, extra []string, getValues []string, skipObl bool) string {
+	return e.queryF(upToSeq, extra, getValues, skipObl, nil)
+}
+
+// queryF: as queryX, keeping only the facts established in blocks of `keep`
+// (the blocks from which the obligation's block is reachable) and at entry.
+func (e *Enc) queryF(upToSeq int, extra []string, getValues []string, skipObl bool, keep map[int]bool) string {
 	var b strings.Builder
 	b.WriteString(prelude)
 	b.WriteString(e.w.rawSMT)
@@ -536,6 +555,9 @@ func (e *Enc) queryX(upToSeq int, extra []string, getValues []string, skipObl bo
 			break
 		}
 		if skipObl && c.obl {
+			continue
+		}
+		if keep != nil && c.blk >= 0 && !keep[c.blk] {
 			continue
 		}
 		b.WriteString(c.text)
@@ -594,6 +616,9 @@ func (e *Enc) finalize() error {
 				e.axioms = append(e.axioms, fmt.Sprintf("(assert (forall (%s) (! (= %s %s) :pattern (%s))))", strings.Join(binds, " "), appl, body.S, appl))
 			}
 			for _, ax := range e.w.specs.Axioms {
+				if e.lemmaLimit != "" && ax.Name == e.lemmaLimit {
+					break // later lemmas (and axioms) are not available to this proof
+				}
 				if e.axDone[ax.Name] {
 					continue
 				}
